@@ -79,6 +79,7 @@ class Env:
         self.fail_at = fail_at
         self.fail_kind = fail_kind
         self.failed = False
+        self.lost = False
 
     async def receive(self):
         if self.disc_handed:
@@ -93,8 +94,13 @@ class Env:
     async def send(self, ev):
         k = self.n_send
         self.n_send += 1
+        if self.lost:
+            self.problems.append('LOST: event %r handed to the server after its send() had reported the connection lost'
+                                 % (ev.get('type') if isinstance(ev, dict) else ev,))
         if self.fail_at is not None and k == self.fail_at:
             self.failed = True
+            # an OSError (and the "code = 1000 (OK)" text) is the server saying: the connection is gone
+            self.lost = self.fail_kind in ('oserror', 'oserror1001', 'ok1000')
             if self.fail_kind == 'oserror':
                 raise OSError('connection lost (injected)')
             if self.fail_kind == 'oserror1001':
@@ -413,7 +419,7 @@ def run_session(app, holder, cfg, script, client_name, disc_code, fail_at=None, 
     if errs and not fault:
         finds.append(('loop-error', 'loop exception handler: %r' % (errs[0].get('message'),)))
     for p in env.problems:
-        finds.append(('receive-after-disconnect', p))
+        finds.append(('event-after-connection-lost' if p.startswith('LOST') else 'receive-after-disconnect', p))
     mon, mstate = monitor(env, cfg['spec'])
     finds += mon
     if holder.get('mismatch'):
